@@ -671,10 +671,15 @@ func writeComputedFieldExpression(w *formatting.IndentedWriter, expression dsl.E
 			if targetType.Cases.IsUnion() {
 				// Special handling for SwitchExpression over a Union from an imported namespace
 				targetTypeNamespace := ""
+				visitedDefinitions := make(map[dsl.TypeDefinition]bool)
 				dsl.Visit(t.Target, func(self dsl.Visitor, node dsl.Node) {
 					switch node := node.(type) {
 					case *dsl.SimpleType:
-						self.Visit(node.ResolvedDefinition)
+						// each referenced definition is examined once
+						if node.ResolvedDefinition != nil && !visitedDefinitions[node.ResolvedDefinition] {
+							visitedDefinitions[node.ResolvedDefinition] = true
+							self.Visit(node.ResolvedDefinition)
+						}
 					case *dsl.RecordDefinition:
 						for _, field := range node.Fields {
 							u := dsl.GetUnderlyingType(field.Type)
